@@ -149,6 +149,14 @@ func checkC06(c *Ctx, r *Result, tier string) {
 	// void the entry: when the exact key is gone, an entry is matched by (function, kind, asserted
 	// type) if that is unique among both the entries and the open obligations of the function.
 	normKey := func(site string) string {
+		if i := strings.Index(site, "#slice:"); i >= 0 {
+			// a slice expression is matched by (function, sliced operand): fn#slice:l.input
+			rest := site[i+len("#slice:"):]
+			if j := strings.Index(rest, "["); j > 0 {
+				return site[:i] + "#slice:" + rest[:j]
+			}
+			return ""
+		}
 		i := strings.Index(site, "#assert:")
 		if i < 0 {
 			return ""
